@@ -2,7 +2,10 @@
 (***************************************************************************)
 (* Judgement of observations of the real loaders against H of C01 / C04.   *)
 (* One record per DISTINCT (requirement, observation) pair seen by the     *)
-(* harness:  [c, mustErr, st, ex, ty, eff]  - the requirement is rebuilt   *)
+(* harness:  [c, mustErr, undisp, st, ex, ty, eff]; undisp: every          *)
+(* offending node is one the constructor model never dispatches on - the   *)
+(* named case class of the known finding "structural-use".  The            *)
+(* requirement is rebuilt                                                  *)
 (* here from the class and the mustErr flag (computed by Construct.tla for *)
 (* generated documents, by TagClass below for corpus documents).           *)
 (***************************************************************************)
@@ -16,6 +19,7 @@ Judge(t) ==
   LET r == [mustErr |-> t.mustErr, okTypes |-> OkTypes(t.c), okEff |-> OkEff(t.c), yamlOnly |-> YamlOnly(t.c), free |-> FALSE]
       o == [st |-> t.st, ex |-> t.ex, ty |-> Range(t.ty), eff |-> Range(t.eff)]
   IN  IF Sat(o, r) THEN [ok |-> TRUE, why |-> "-"]
+      ELSE IF t.undisp /\ Sat(o, [r EXCEPT !.mustErr = FALSE]) THEN [ok |-> FALSE, why |-> "not rejected (undispatched)"]
       ELSE [ok |-> FALSE, why |-> (CASE ~(o.eff \subseteq r.okEff) -> "effect"
                                      [] o.st = "ok" /\ ~(o.ty \subseteq r.okTypes) -> "type"
                                      [] o.st = "ok" /\ r.mustErr -> "not rejected"
